@@ -42,12 +42,7 @@ def parseMembers (j : Json) : List (String × J) :=
 /-- the header as jwx presents it, or the parse class when jwx refuses the input -/
 def hdrOf (j : Json) : Res Hdr :=
   if jStr j "framing" == "bad" then .err "parse" else
-  let ref := hexNat (jStr j "ref")
-  match jwxMembers (jBool j "jwkOK") {} (parseMembers j) with
-  | .ok r => .ok { nSigs := jNat j "nsigs", alg := r.alg, cty := r.cty, hasJwk := r.hasJwk, jwkPrivate := jBool j "jwkPrivate", kid := r.kid, priv := r.priv,
-                   payload := jStr j "payload", ref := ref }
-  | .err e => .err e
-  | .panic p => .panic p
+  hdrOfMembers (jNat j "nsigs") (parseMembers j) (jBool j "jwkOK") (jBool j "jwkPrivate") (jStr j "payload") (hexNat (jStr j "ref"))
 
 def b64Of (j : Json) : String → Bool := fun s => (jStrs j "b64ok").contains s
 
